@@ -20,7 +20,9 @@ def mc(ctx, sd, name, **kw):
 def model_check(ctx, sd):
     """Exhaustive: EVERY layout of the bounded domain (all block partitions, all tombstone ranges) x every
     chunking the relation allows x every abort / error point."""
-    mc(ctx, sd, "M1.cfg")                                             # 1 key, times 0..2, 2 files, tombstones in the older
+    r1 = mc(ctx, sd, "M1.cfg")                                        # 1 key, times 0..2, 2 files, tombstones in the older
+    if r1.get("zero_coverage"):
+        raise Infra("vacuity: actions never taken in Compaction/M1: %s" % r1["zero_coverage"])
     mc(ctx, sd, "M2.cfg", TombFiles={2})                              # ... in the newer file
     mc(ctx, sd, "M3.cfg", NKeys=2, MaxT=1, Size=1, TombFiles=set())   # 2 keys, 1-point blocks
     mc(ctx, sd, "M4.cfg", NKeys=2, MaxT=1, MaxFiles=3, FromCache=True)  # snapshot path: up to 3 writes
